@@ -158,8 +158,13 @@ Proof. intro s. discriminate. Qed.
 Lemma not_ub_reject {A} c : not_ub (@Reject A c).
 Proof. intro s. discriminate. Qed.
 
+Lemma not_ub_count c site o : not_ub (count_unwrap c Debug site o).
+Proof. unfold count_unwrap. destruct c; [apply not_ub_must | apply not_ub_unwrap]. Qed.
+Lemma count_unwrap_some c md site v : count_unwrap c md site (Some v) = Ok v.
+Proof. unfold count_unwrap. destruct c; reflexivity. Qed.
+
 Create HintDb nubdb.
-#[export] Hint Resolve not_ub_ok not_ub_reject not_ub_unwrap not_ub_must : nubdb.
+#[export] Hint Resolve not_ub_ok not_ub_reject not_ub_unwrap not_ub_must not_ub_count : nubdb.
 
 Ltac nub :=
   repeat first
